@@ -826,6 +826,86 @@ func execSeq(w []string) (res h.Result) {
 	return
 }
 
+// cc <k> <n0>: k state-changing calls issued CONCURRENTLY (k goroutines) on one real adaptor with one endpoint that
+// counts every accepted transaction as pending (start: n0).  The request queue serialises them (ReqLoop → handleReq,
+// one at a time): the accepted nonces must be n0 … n0+k-1, none reused, none skipped (review E #10: "serialised" was
+// only ever seen as a model disagreement of a case written for F8).
+func execCC(w []string) (res h.Result) {
+	abis()
+	k, n0 := h.Atoi(w[1]), uint64(h.Atoi(w[2]))
+	res.Class = "cc"
+	res.Nontrivial = k > 1
+	st, err := chaindouble.NewStack(1, 1, big.NewInt(1), 5000000, 20000000000, nil)
+	if err != nil {
+		res.Impl = "connect-failed " + h.OneLine(err.Error())
+		res.Oracle = "harness-connect-failed: " + h.OneLine(err.Error())
+		return
+	}
+	defer st.Close()
+	e := st.RPC[0]
+	e.SetNonce(n0)
+	e.SetAutoNonce(true)
+	e.ResetRawTxs()
+	var wg sync.WaitGroup
+	var mu sync.Mutex
+	nerr := 0
+	start := make(chan struct{})
+	for i := 0; i < k; i++ {
+		wg.Add(1)
+		go func(i int) {
+			defer wg.Done()
+			<-start
+			var err error
+			switch i % 3 {
+			case 0:
+				err = st.Adaptor.RegisterNewNode()
+			case 1:
+				err = st.Adaptor.SetGroupSize(uint64(3 + i))
+			default:
+				err = st.Adaptor.Commit(big.NewInt(int64(i)), [32]byte{byte(i)})
+			}
+			if err != nil {
+				mu.Lock()
+				nerr++
+				mu.Unlock()
+			}
+		}(i)
+	}
+	close(start)
+	wg.Wait()
+	var nonces []int
+	seen := map[uint64]int{}
+	for _, raw := range e.RawTxs() {
+		tx := new(types.Transaction)
+		if err := tx.UnmarshalBinary(raw); err != nil {
+			res.Oracle = "tx-undecodable"
+			continue
+		}
+		nonces = append(nonces, int(tx.Nonce()))
+		seen[tx.Nonce()]++
+	}
+	sort.Ints(nonces)
+	res.Impl = fmt.Sprintf("nonces=%s errs=%d", csvInts(nonces), nerr)
+	if res.Oracle == "" {
+		for i := 0; i < k; i++ {
+			n := n0 + uint64(i)
+			switch {
+			case seen[n] > 1:
+				res.Oracle = fmt.Sprintf("concurrent-calls-nonce-reused: nonce %d carried by %d transactions of %d concurrent calls (%s)", n, seen[n], k, csvInts(nonces))
+			case seen[n] == 0:
+				res.Oracle = fmt.Sprintf("concurrent-calls-nonce-skipped: no transaction with nonce %d among %d concurrent calls (%s)", n, k, csvInts(nonces))
+			}
+			if res.Oracle != "" {
+				break
+			}
+		}
+		if res.Oracle == "" && (len(nonces) != k || nerr != 0) {
+			res.Oracle = fmt.Sprintf("concurrent-calls-lost: %d calls, %d transactions, %d errors", k, len(nonces), nerr)
+		}
+	}
+	return
+}
+
 func boundaryArgs(calls []callSpec) bool {
 	for _, c := range calls {
 		for _, a := range c.args {
@@ -1246,6 +1326,8 @@ func exec(line string) (res h.Result) {
 		return execHR(w)
 	case "seq":
 		return execSeq(w)
+	case "cc":
+		return execCC(w)
 	case "sig":
 		return execSig(w)
 	case "pk":
